@@ -149,7 +149,10 @@ def run_shard(spec, tier, seed):
         try:
             from hv.monitors.c20 import write_ini
             inp = os.path.join(tmp, 'in.ini')
-            write_ini(inp, p.answers)
+            # (the input file also carries a [habutax] section naming ANOTHER year - a user may have started from an old solution
+            # file; the year asked for on the command line is the one that counts and the one the solution carries)
+            other = {2021: 2023, 2022: 2021, 2023: 2022}[year]
+            write_ini(inp, dict(p.answers, **{'habutax.tax_year': str(other), 'habutax.version': '0.0.0'}))
             sol = os.path.join(tmp, 'sol.ini')
             # history: the same --solution path was used before, for a larger return (more statements, more forms)
             big = None
